@@ -473,7 +473,7 @@ func ruleSecureKinds(r *Run, rule string) {
 			for i := range all {
 				p := &all[i]
 				for j, e := range p.Ev {
-					if e.Kind != EvBranch || e.Cond == nil || !e.Taken || !strings.Contains(ExprStr(e.Cond), `hasTag("secure")`) {
+					if e.Kind != EvBranch || e.Cond == nil || !e.Taken || !callsHasTag(fl.Info, e.Cond, "secure") {
 						continue
 					}
 					n++
@@ -1555,4 +1555,20 @@ func ruleSecureNoSkip(r *Run, rule string) {
 		return
 	}
 	r.Check(rule, "secureStruct:no-field-skipped", bpos, bad == "", "%s", orOK(bad, "only unexported fields are passed over; tagged ones are overwritten, the others dispatched by kind"))
+}
+
+// callsHasTag: the expression calls tags.hasTag with a constant argument of this value (literal or named constant).
+func callsHasTag(info *types.Info, e ast.Expr, tag string) bool {
+	found := false
+	ast.Inspect(e, func(n ast.Node) bool {
+		if c, ok := n.(*ast.CallExpr); ok && len(c.Args) == 1 {
+			if sel, ok := ast.Unparen(c.Fun).(*ast.SelectorExpr); ok && sel.Sel.Name == "hasTag" {
+				if v, ok := ConstString(info, c.Args[0]); ok && v == tag {
+					found = true
+				}
+			}
+		}
+		return !found
+	})
+	return found
 }
